@@ -352,3 +352,67 @@ Example C19_generated_static_example :
   map (fun i => this (rs_offset st i)) (zrange 9).
 Proof. vm_compute. split; reflexivity. Qed.
 End RFGenFamily.
+(** * The queue code of DynamicRFKickMap as generated (strengthening driven by seed C19-G)
+
+    `translate/dynqueue2coq.py` -> `Gen/Gen_DynQueue.v`: the `for` header of `__calcModulation(steps)` ([dq_for]), the pair
+    emplaced per iteration ([dq_entry], an expression over a generic field with `sin` and the two normal variates of the
+    iteration abstract), the argument both constructors hand to `__calcModulation` in the initialiser of
+    `_next_modulation` ([dq_ctor_queue_arg]), the statements of `apply()`, `_calcKick()`, `getPastModulation()` and every
+    use of the member `_next_modulation` ([dq_queue_refs]).  Model/DynQueue.v gives these a semantics
+    ([gen_queue], [gen_run]; a moved-from vector holds an arbitrary [junk]).
+
+    For every field, sine, noise sequence, member values, `steps`, every interleaving of apply and flush with at most
+    `steps` applies: the queue built by the generated loop has exactly `steps` entries; the entry consumed by the k-th
+    apply (k = 0, 1, ...) is the generated expression AT INDEX k ITSELF with the variates 2k, 2k+1; the queue afterwards
+    is what is left of the initial one (its length is steps - applies: it is never refilled); the flushed chunks followed
+    by the pending records are the first records, none lost or duplicated; each kick is `_calcKick` of its record.
+    Per-run obligations on the generated shape: loop header (0; < parameter `steps`; +1), both constructors pass their
+    parameter `steps`, the member is only read, initialised by the constructors and popped by `apply`. *)
+From Inovesa Require Import Model.DynQueue Gen.Gen_DynQueue Proofs.DynQueueP.
+
+Theorem C19_dynqueue_shape :
+  hdr_ok dq_for = true /\ ctor_args_ok dq_ctor_queue_arg = true /\ queue_refs_ok dq_queue_refs = true.
+Proof. exact (conj dq_for_ok (conj dq_ctor_args_ok dq_refs_ok)). Qed.
+Print Assumptions C19_dynqueue_shape.
+
+Theorem C19_dynqueue_entry_k_is_consumed_by_apply_k :
+  forall (K : Fld) (sin : K -> K) (G : Type) (kickmap : list K -> G -> G)
+         (m : rfmap K) (len : nat) (sync : K) (d : dyncfg K) (noise : nat -> K) (steps : nat) (g : G)
+         (junk : list (modn K)) (ops : list op),
+    (count_apply ops <= steps)%nat ->
+    let q0 := gen_queue dq_for (gen_entry K sin sync d) noise (Z.of_nat steps) in
+    let s := gen_run sin kickmap m dq_calckick_args dq_apply_ops dq_getpast_ops junk ops (init sin m len q0 g) in
+    let j := count_apply ops in
+    List.length q0 = steps /\
+    ub s = false /\
+    (forall k, (k < j)%nat ->
+       nth_error (used s) k =
+       Some (dq_entry K sin sync (phasenoise d) (amplnoise d) (modampl d) (modtimedelta d)
+                      (noise (2 * k)%nat) (noise (2 * k + 1)%nat) (fz (Z.of_nat k)))) /\
+    List.length (queue s) = (steps - j)%nat /\ queue s = skipn j q0 /\
+    List.concat (flushed s) ++ past s = firstn j q0 /\
+    map (firstn (xlen K m)) (kicks s) = map (ck K sin m) (firstn j q0).
+Proof. exact dynqueue_records. Qed.
+Print Assumptions C19_dynqueue_entry_k_is_consumed_by_apply_k.
+
+(** the generated loop computes the hand-written `calc_modulation` (so every theorem above that mentions it speaks about
+    the source of this run), and the generated machine is the hand-written one *)
+Theorem C19_dynqueue_is_the_model :
+  forall (K : Fld) (sin : K -> K) (sync : K) (d : dyncfg K) (noise : nat -> K) (steps : nat),
+    gen_queue dq_for (gen_entry K sin sync d) noise (Z.of_nat steps) = calc_modulation sin sync d noise steps.
+Proof. exact gen_queue_is_calc_modulation. Qed.
+Print Assumptions C19_dynqueue_is_the_model.
+
+Theorem C19_dynqueue_machine_is_the_model :
+  forall (K : Fld) (sin : K -> K) (G : Type) (kickmap : list K -> G -> G) (m : rfmap K)
+         (junk : list (modn K)) (ops : list op) (s : DynRF.st K G),
+    gen_run sin kickmap m dq_calckick_args dq_apply_ops dq_getpast_ops junk ops s = run sin kickmap m ops s.
+Proof. exact gen_run_is_run. Qed.
+Print Assumptions C19_dynqueue_machine_is_the_model.
+
+(** non-vacuity: a block-wise header (the queue built for min(steps, blocksize)) or a refill in apply() is refused *)
+Example C19_dynqueue_refusals :
+  ctor_args_ok [("linear", BOther "min(steps, _blocksize)"); ("sinusoidal", BParam "steps")]%string = false /\
+  queue_refs_ok [("constructor", "init"); ("apply", "empty"); ("apply", "assign"); ("apply", "front"); ("apply", "pop")]%string = false /\
+  hdr_ok (mkfor 1 (BParam "steps") 1) = false.
+Proof. repeat split; vm_compute; reflexivity. Qed.
